@@ -11,14 +11,16 @@ System under test: the instruction sequences `chibicc -S` emits for tiny bodies 
                                  Guard bytes (0xA5) directly before and after every atomic object and every
                                  expected-value object, in every storage, examined after every operation; bodies are
                                  entered through a trampoline that keeps the callee-saved registers and %rsp in static
-                                 memory, compares them after the return and restores them
+                                 memory, compares them after the return and restores them; an instrumented write
+                                 outside the thread's private memory and the objects of the program (all re-initialised
+                                 for every run) stops the run before it executes
   oracle     (here)              in this order: unlocked RMW on the atomic object; a side-effecting operand not
                                  evaluated exactly once (C11 7.1.4, 6.5.16.2); modified guard bytes; callee-saved register
                                  not preserved; brute-force linearizability of each distinct call/return history
                                  (<= 6 operations) against a sequential specification written from C11 6.5.16.2, 6.5.2.4,
                                  6.5.3.1, 7.17.7 (final object value included), refined by the failure report of
                                  compare-exchange: a failed one must report a value the object can hold, a failed strong
-                                 one never the expected value; livelock; fault/hang of the code under test
+                                 one never the expected value; livelock; fault/hang/wild write of the code under test
 
 Enumerated (every combination inside the stated bounds, no sampling):
   types      signed/unsigned 1, 2, 4, 8 byte integers, _Bool, int *, float, double                       (TYPES)
@@ -247,7 +249,7 @@ def kind_wrap(kind, pos, x):
     raise core.HarnessError("unknown operand kind " + kind)
 
 
-AUTO_DECL = {"auto": "char go0[8]; _Atomic T_%(tn)s x; char go1[8]; vp_guard(5, go0, 8, 0, 0); vp_guard(6, go1, 8, 0, 0); "
+AUTO_DECL = {"auto": "char go0[8]; _Atomic T_%(tn)s x; char go1[8]; vp_guard(5, go0, 8, &x, 0); vp_guard(6, go1, 8, &x, 0); "
                      "vp_auto_begin(&x, sizeof x); ",
              "automember": "struct S_%(tn)s s; vp_guard(4, &s, sizeof s, &s.m, sizeof s.m); vp_auto_begin(&s.m, sizeof s.m); "}
 
@@ -282,7 +284,7 @@ def lvalue(tn, form, akind="priv"):
 def expected_object(T, storage, var):
     """-> (declarations incl. registration of the guard bytes, lvalue of the expected-value object, its address)"""
     if storage == "local":
-        return ("char ge0[8]; %s %s; char ge1[8]; vp_guard(2, ge0, 8, 0, 0); vp_guard(3, ge1, 8, 0, 0); " % (T, var),
+        return ("char ge0[8]; %s %s; char ge1[8]; vp_guard(2, ge0, 8, &%s, 0); vp_guard(3, ge1, 8, &%s, 0); " % (T, var, var, var),
                 var, "&" + var)
     if storage == "member":
         return ("struct { char g0[8]; %s x; char g1[8]; } sx; vp_guard(1, &sx, sizeof sx, &sx.x, sizeof sx.x); " % T,
@@ -290,7 +292,7 @@ def expected_object(T, storage, var):
     if storage == "elem":
         return "%s ax[3]; vp_guard(1, ax, sizeof ax, &ax[1], sizeof ax[1]); " % T, "ax[1]", "&ax[1]"
     if storage == "last":
-        return "char ge0[8]; %s %s; vp_guard(2, ge0, 8, 0, 0); " % (T, var), var, "&" + var
+        return "char ge0[8]; %s %s; vp_guard(2, ge0, 8, &%s, 0); " % (T, var, var), var, "&" + var
     if storage == "static":
         return "%s *px = vp_static(sizeof(%s)); " % (T, T), "(*px)", "px"
     raise core.HarnessError("unknown storage " + storage)
@@ -465,7 +467,7 @@ TREIBER = """struct node_t { struct node_t *next; long val; };
 struct tstack { _Atomic(struct node_t *) top; struct node_t nodes[8]; };
 L f_push_p8_treiber(void *p, L a, L *e) {
   struct tstack *s = p; struct node_t *n = &s->nodes[a]; n->val = a;
-  char ge0[8]; struct node_t *old; char ge1[8]; vp_guard(2, ge0, 8, 0, 0); vp_guard(3, ge1, 8, 0, 0);
+  char ge0[8]; struct node_t *old; char ge1[8]; vp_guard(2, ge0, 8, &old, 0); vp_guard(3, ge1, 8, &old, 0);
   old = s->top;
   do { n->next = old; } while (!atomic_compare_exchange_weak(&s->top, &old, n));
   vp_body_end(-1, -1, -1);
@@ -1287,7 +1289,8 @@ def judge(prog, htext):
         return "livelock"
     if htext.startswith("CRASH-"):                      # fault or hang of the code under test (see c16_rt.c)
         return {"CRASH-SEGV": "crash-sigsegv", "CRASH-BUS": "crash-sigbus", "CRASH-ILL": "crash-sigill",
-                "CRASH-FPE": "crash-sigfpe", "CRASH-HANG": "hang-without-scheduling-point"}.get(htext, "crash")
+                "CRASH-FPE": "crash-sigfpe", "CRASH-HANG": "hang-without-scheduling-point",
+                "CRASH-WILD": "write-outside-the-objects-of-the-program"}.get(htext, "crash")
     tn = spec_type(prog)
     events, final, flags = parse_history(htext)
     if flags["U"]:
@@ -2132,6 +2135,9 @@ def run(ctx):
     ctx.assume("a retry loop that runs for 10^4 scheduling points is a livelock verdict; exploration of that program "
                "stops at the first such schedule; the same holds for a fault (SIGSEGV/SIGBUS/SIGILL/SIGFPE) or a hang "
                "(3 s of CPU time without scheduling decision) while a body, a helper or an access stub is running")
+    ctx.assume("a write or read-modify-write of a body to memory other than its own stack, its private static block, the "
+               "arena, the aggregate of the atomic object with its guard objects or (automatic objects) the owner's stack "
+               "is a verdict (write-outside-the-objects-of-the-program); reads elsewhere are permitted (constants)")
     ctx.assume("operand helpers (h1/h5/h7/hf compiled by chibicc in the same unit, vp_clobber in assembly) and the nested "
                "atomic operations touch only thread-private memory, so they add no scheduling points; nested atomic "
                "operations on a second SHARED object are not explored")
